@@ -21,6 +21,10 @@ Driver for the summary aggregation model (state: program folders + the two summa
   batches <n>                        -> [5,5,2] [[0,1,2,3,4],[5,...],...]
   parse <name>                       -> <program> <simulation> <ts01><emis01><est01><rep01><kept01> | none ...
   ord <y> <m> <d>                    -> days since 1970-01-01
+  wsim <prog> <sim> <tsRows> <emisRows> <estRows|-> <repRows|->   what (prog, sim) writes          -> ok
+  runall <progs> <n> <keep01> <sched>  replaces the state by `runAll` (the function the theorems are
+                                     about) on the world given by the wsim lines; sched 0 = every scan
+                                     in stored order, 1 = some scans reversed                       -> ok
 -/
 open LdarModel LdarModel.Summary LdarModel.Proto
 
@@ -28,6 +32,15 @@ structure DSt where
   years : List Nat := []
   k : Rat := 0
   st : St Content := { dirs := [], ts := [], emis := [] }
+  world : List ((Name × Nat) × SimOut Content) := []
+
+def drvSched (mode : Nat) : Sched Content :=
+  if mode = 0 then
+    { dirs := fun _ l => l, ts := fun _ _ l => l, emis := fun _ _ l => l, est := fun _ _ l => l,
+      rep := fun _ _ l => l }
+  else
+    { dirs := fun _ l => l.reverse, ts := fun _ _ l => l, emis := fun _ _ l => l.reverse,
+      est := fun b _ l => if b % 2 = 0 then l.reverse else l, rep := fun _ _ l => l }
 
 def str (n : Name) : String := String.ofList n
 
@@ -81,6 +94,9 @@ def content? (kind rows : String) : Option Content :=
   | "other" => some Content.other
   | _ => none
 
+def optContent? (kind rows : String) : Option (Option Content) :=
+  if rows = "-" then some none else (content? kind rows).map some
+
 /-- the files of the folder in the order of the received listing; `none` unless the listing is a
 permutation of the folder -/
 def resolve (d : List (File Content)) (names : List Name) : Option (List (File Content)) :=
@@ -131,6 +147,18 @@ def step (s : DSt) (toks : List String) : DSt × String :=
     match natList? ys, int? kn, nat? kd with
     | some ys, some kn, some kd => ({ years := ys, k := (kn : Rat) / (kd : Rat) }, "ok")
     | _, _, _ => (s, "bad-op")
+  | ["wsim", p, sim, t, e, x, r] =>
+    match nat? sim, content? "ts" t, content? "emis" e, optContent? "est" x, optContent? "rep" r with
+    | some sim, some t, some e, some x, some r =>
+      ({ s with world := ((p.toList, sim), { ts := t, emis := e, est := x, rep := r }) :: s.world }, "ok")
+    | _, _, _, _, _ => (s, "bad-op")
+  | ["runall", ps, n, keep, mode] =>
+    match listOf? (fun x => some x.toList) ps, nat? n, bool? keep, nat? mode with
+    | some ps, some n, some keep, some mode =>
+      let W : Name → Nat → SimOut Content := fun p i =>
+        (s.world.lookup (p, i)).getD { ts := .ts [], emis := .emis [], est := none, rep := none }
+      ({ s with st := runAll (concreteStats s.years) W ps keep (drvSched mode) n }, "ok")
+    | _, _, _, _ => (s, "bad-op")
   | ["mkdir", d] => ({ s with st := { s.st with dirs := s.st.dirs ++ [(d.toList, [])] } }, "ok")
   | ["put", d, name, kind, rows] =>
     match content? kind rows with
